@@ -92,6 +92,20 @@ def check(prop, modname, tier, seed):
                 rep.known('%s [%s]' % (f['what'], f['id']))
     if evals == 0 and not rep.broken:
         rep.broken.append('zero cases enumerated')
+    xh = None
+    if tier == 'thorough' and getattr(mod, 'CROSSHAIR', None):
+        xh = run_crosshair(mod.CROSSHAIR, float(os.environ.get('VERIF_XH_BUDGET', '40')))
+        for (where, msg) in xh['refuted']:
+            name = 'crosshair[%s]' % where
+            if any(f.get('crosshair') == where for f in findings):
+                rep.known('%s (CrossHair counterexample: %s)' % ([f for f in findings if f.get('crosshair') == where][0]['what'][:200], msg[:160]))
+                continue
+            path = common.replay_path(prop, name)
+            common.write_json(path, {'property': prop, 'obligation': name, 'replay_kind': 'crosshair', 'counterexample': msg,
+                                     'how_to_replay': 'the message names the function and its arguments; call it'})
+            rep.violation(name, path, True)
+        for e in xh['errors']:
+            rep.undecided.append('CrossHair: ' + e[:300])
     la = None
     if hasattr(mod, 'level_a'):
         la = mod.level_a(tier)
@@ -111,6 +125,10 @@ def check(prop, modname, tier, seed):
                                       'real functions, evaluated on every case of the stated scope; ' + mod.SCOPE[tier],
                        'checker_cmd': './check %s --tier %s' % (prop, tier)},
           'assumptions': mod.ASSUMPTIONS}
+    if xh is not None:
+        ev['coverage']['crosshair'] = {k: xh[k] for k in ('modules', 'conditions', 'confirmed_over_all_paths', 'not_confirmed', 'refuted', 'budget_s_per_condition')}
+        ev['coverage']['crosshair']['note'] = ('symbolic search of the deal contracts in bounded/xh/*.py by CrossHair (z3, per-path); a bounded '
+                                               'stand-in under a time budget: "confirmed over all paths" is recorded but never counted as proved')
     if la is not None:
         ev['coverage'].update({'obligations': la['obligations'], 'discharged': la['discharged'],
                                'level_a_functions_under_contract': la['functions'], 'solver_ms_total': la['ms'],
@@ -119,3 +137,44 @@ def check(prop, modname, tier, seed):
                                                'bounded part is counted in evaluations/distinct_nontrivial; the property as a whole is '
                                                'reported at the weaker level (exploration)'})
     return rep.finish(ev)
+
+
+def run_crosshair(modules, budget):
+    """crosshair check --analysis_kind=deal on sidecar modules -> counts and counterexamples; internal errors are
+    errors (undecided), never violations"""
+    import re
+    import subprocess
+    verif = os.path.dirname(os.path.dirname(os.path.abspath(__file__)))
+    env = dict(os.environ)
+    env['PYTHONPATH'] = os.pathsep.join(([os.environ['KLEPTO_REPO']] if os.environ.get('KLEPTO_REPO') else []) + [verif])
+    out = {'modules': list(modules), 'conditions': 0, 'confirmed_over_all_paths': 0, 'not_confirmed': 0, 'refuted': [], 'errors': [],
+           'budget_s_per_condition': budget}
+    for m in modules:
+        try:
+            p = subprocess.run([sys.executable, '-m', 'crosshair', 'check', '--analysis_kind=deal', '--report_all',
+                                '--per_condition_timeout', str(budget), '--per_path_timeout', '8', m],
+                               cwd=verif, env=env, capture_output=True, text=True, timeout=budget * 40 + 120)
+        except subprocess.TimeoutExpired:
+            out['errors'].append('%s: timed out' % m)
+            continue
+        lines = (p.stdout + p.stderr).splitlines()
+        seen_any = False
+        for ln in lines:
+            mm = re.match(r'^(.*?):(\d+): (info|error): (.*)$', ln)
+            if not mm:
+                continue
+            seen_any = True
+            where = '%s:%s' % (os.path.basename(mm.group(1)), mm.group(2))
+            kind, msg = mm.group(3), mm.group(4)
+            out['conditions'] += 1
+            if kind == 'info' and msg.startswith('Confirmed'):
+                out['confirmed_over_all_paths'] += 1
+            elif kind == 'info':
+                out['not_confirmed'] += 1
+            elif msg.startswith('false when calling') or 'when calling' in msg:
+                out['refuted'].append((where, msg))
+            else:
+                out['errors'].append('%s: %s' % (where, msg))
+        if not seen_any:
+            out['errors'].append('%s: no output (rc=%s) %s' % (m, p.returncode, (p.stderr or p.stdout)[-200:]))
+    return out
